@@ -1329,7 +1329,7 @@ mkassignexpr(struct expr *l, struct expr *r)
 
 	e = mkexpr(EXPRASSIGN, l->type, NULL);
 	e->u.assign.l = l;
-	e->u.assign.r = exprconvert(r, l->type);
+	e->u.assign.r = exprassign(r, l->type);
 	return e;
 }
 
@@ -1359,6 +1359,8 @@ assignexpr(struct scope *s)
 	}
 	if (!l->lvalue)
 		error(&tok.loc, "left side of assignment expression is not an lvalue");
+	if (l->type->incomplete || l->type->kind == TYPEFUNC || l->type->kind == TYPEARRAY)
+		error(&tok.loc, "left side of assignment expression must have complete object type");
 	next();
 	r = assignexpr(s);
 	if (!op)
